@@ -54,6 +54,23 @@ theorem table_sound_auth {nf : Felt} {h : Nat} (hh : h ≤ 250) (nc : Felt)
         · right; right; exact hc
       · right; left; exact hc
 
+/-- the honest decommitment of a table against any other root is rejected (no collision clause):
+    C04 `rejects_wrong_root` through the table layer -/
+theorem table_rejects_wrong_root {nf : Felt} {h : Nat} (hh : h ≤ 250) (n : Nat) (hn : n < 2 ^ 32)
+    (r : Felt) (cell : Nat → Nat → Felt) (Q : List Nat) (extra : List Felt) (hne : Q ≠ [])
+    (hs : Q.Pairwise (· < ·)) (hr : ∀ i ∈ Q, i < 2 ^ h) (hroot : r ≠ tableRoot H nf h n cell) :
+    Table.decommit H ⟨Felt.ofNat n, ⟨⟨Felt.ofNat h, nf⟩, r⟩⟩
+      (Q.map Felt.ofNat) (rowValues cell n Q)
+      (authPath H nf h (tableLeaf H nf h n cell) Q ++ extra) = .err "MisMatch" := by
+  have hnv : (Felt.ofNat n).val = n :=
+    ofNat_val (Nat.lt_trans hn (Nat.pow_lt_pow_right (by omega) (by omega)))
+  unfold Table.decommit
+  simp only [hnv, bottom_friendly_eq hh]
+  rw [if_neg (by omega), if_neg (by simp [rowValues_length])]
+  rw [vectorQueries_honest cell (tableLeaf H nf h n cell) (tableLeaf_eq cell) Q]
+  exact rejects_wrong_root hh r _ Q extra hne hs hr hroot
+
+
 /-- the `j`-th `n`-block of `rowValues` is the committed row `Q[j]` -/
 theorem rowValues_block (cell : Nat → Nat → Felt) (n : Nat) : ∀ (Q : List Nat) (j r : Nat),
     Q[j]? = some r → ((rowValues cell n Q).drop (j * n)).take n = (List.range n).map (cell r) := by
